@@ -80,7 +80,7 @@ func VerifC15_Known() {
 		st, err := c.crlRepository.IsRevoked(cc, nil)
 		return err == nil && st.Revoked
 	}
-	scenario := verifrt.Choose(3)
+	scenario := verifrt.Choose(4)
 	switch scenario {
 	case 0: // provisioning of configured lists
 		crlrepository.VerifSetServer(urlB, true, crlrepository.VerifNewCRL("B", "CN=I1", s1))
@@ -123,6 +123,18 @@ func VerifC15_Known() {
 		crlrepository.VerifSetServer(urlA, true, crlrepository.VerifNewCRL("A2", "CN=I1", s3))
 		c.crlRepository.UpdateCRLs()
 		verifrt.Assert(revoked(s3), "the next tick retries the location that failed")
+	case 3: // the FIRST load of a distribution-point CRL fails at the handshake; a tick loads it; later ticks keep refreshing it
+		crlrepository.VerifSetServer(urlA, false, nil)
+		cert := crlrepository.VerifCert("CN=I1", s2, urlA)
+		_, _ = c.IsRevoked(cert, chainFor(cert))
+		verifrt.RunSpawned()
+		crlrepository.VerifSetServer(urlA, true, crlrepository.VerifNewCRL("A1", "CN=I1", s1))
+		c.crlRepository.UpdateCRLs()
+		verifrt.Assert(revoked(s1), "a tick loads the known CRL whose first download failed")
+		crlrepository.VerifSetServer(urlA, true, crlrepository.VerifNewCRL("A2", "CN=I1", s2))
+		c.crlRepository.UpdateCRLs()
+		verifrt.Reach("failed-first-load-then-refreshes")
+		verifrt.Assert(revoked(s2) && !revoked(s1), "after that the CRL is refreshed like any other known CRL")
 	}
 	verifrt.DropSpawned()
 }
